@@ -6,6 +6,7 @@ import (
 	"fmt"
 	"go/token"
 	"go/types"
+	"math/big"
 	"os"
 	"strings"
 
@@ -106,6 +107,7 @@ func init() {
 		name := goString(args[0])
 		lo, hi := i.concreteInt(args[1]), i.concreteInt(args[2])
 		t := i.newInput(name, "int", 64)
+		i.cx.SetVarRange(name, big.NewInt(lo), big.NewInt(hi))
 		i.assume(i.cx.And(i.cx.Sle(i.cx.BV(uint64(lo), 64), t), i.cx.Sle(t, i.cx.BV(uint64(hi), 64))))
 		return fromTerm(t, types.Int)
 	}
@@ -114,6 +116,7 @@ func init() {
 		name := goString(args[0])
 		lo, hi := i.concreteInt(args[1]), i.concreteInt(args[2])
 		t := i.newInput(name, "int64", 64)
+		i.cx.SetVarRange(name, big.NewInt(lo), big.NewInt(hi))
 		i.assume(i.cx.And(i.cx.Sle(i.cx.BV(uint64(lo), 64), t), i.cx.Sle(t, i.cx.BV(uint64(hi), 64))))
 		return fromTerm(t, types.Int64)
 	}
@@ -374,6 +377,22 @@ func init() {
 		fr.i.setLocalZone(args[0])
 		return nil
 	}
+	// vClockWindow(base, span): time.Now() = base + d seconds, 0 <= d < span,
+	// with symbolic d and nanoseconds (a small window keeps calendar
+	// arithmetic on `now` inside the division-lowering fragment).
+	harnessAPI["vClockWindow"] = func(fr *frame, args []value) value {
+		i := fr.i
+		base, span := i.concreteInt(args[0]), i.concreteInt(args[1])
+		d := i.newInput("now.delta", "int64", 64)
+		ns := i.newInput("now.nsec", "int64", 64)
+		i.cx.SetVarRange("now.delta", big.NewInt(0), big.NewInt(span-1))
+		i.cx.SetVarRange("now.nsec", big.NewInt(0), big.NewInt(999999999))
+		i.assume(i.cx.And(i.cx.Sle(i.cx.BV(0, 64), d), i.cx.Slt(d, i.cx.BV(uint64(span), 64))))
+		i.assume(i.cx.And(i.cx.Sle(i.cx.BV(0, 64), ns), i.cx.Slt(ns, i.cx.BV(1000000000, 64))))
+		i.windowNow = structure{fromTerm(ns, types.Uint64), fromTerm(i.cx.Add(d, i.cx.BV(uint64(base+unixToInternal), 64)), types.Int64), nil}
+		i.hasWindowNow = true
+		return nil
+	}
 	harnessAPI["vClockFixed"] = func(fr *frame, args []value) value {
 		i := fr.i
 		i.fixedNow = i.concreteInt(args[0])
@@ -469,6 +488,11 @@ var _ = strings.HasPrefix
 const unixToInternal = (1969*365 + 1969/4 - 1969/100 + 1969/400) * 86400
 
 func (i *interpreter) nowValue() value {
+	if i.hasWindowNow {
+		timePkg := i.sh.Pkgs["time"]
+		w := i.windowNow.(structure)
+		return structure{w[0], w[1], *i.globals[timePkg.Var("Local")]}
+	}
 	if i.hasFixedNow {
 		timePkg := i.sh.Pkgs["time"]
 		return structure{uint64(0), i.fixedNow + unixToInternal, *i.globals[timePkg.Var("Local")]}
